@@ -42,6 +42,10 @@ def run(ctx):
     r8_shared_objects(ctx)
     r9_generators_travel_with_their_position(ctx)
     r10_reduce_covers_constructor(ctx)
+    # the record of an evaluation is a function of that evaluation alone: records reach the parent in any order when several processes work
+    from . import c02
+    ctx.rule("C01.R11", "TransactionEncode is stateless across records (C02.R8): it keeps nothing but the restored flag, so what is written for one triple cannot depend on which records arrived before it")
+    c02.encoder_stateless(ctx, "C01.R11")
 
 
 def r10_reduce_covers_constructor(ctx, rule="C01.R10"):
@@ -568,7 +572,7 @@ def _time_only(c, fn):
 
 # ------------------------------------------------------------------------------------------ R7
 R7_FUNCS = [(PROC, "MakeTasks.read"), (PROC, "ChunkTasks._chunks"), (PROC, "ProcessTasks.filter"),
-            (RES, "TransactionEncode.filter"), (RES, "TransactionResult.filter"), (EXP, "Experiment.run")]
+            (RES, "TransactionEncode.filter"), (RES, "TransactionResult.filter"), (EXP, "Experiment.run"), (EXP, "Experiment._parse_init_args"), (EXP, "Experiment.__init__")]
 SET_METHODS = {"union", "intersection", "difference", "symmetric_difference"}
 
 
@@ -602,8 +606,8 @@ def _encode_sorts_keys(ctx):
         isinstance(x, ast.For) and unparse(x.iter) == K for x in walk_shallow(fn))
 
 
-def r7_hash_order(ctx):
-    ctx.rule("C01.R7", "no set-typed expression is iterated into ordered output (for / comprehension / list / tuple / zip / "
+def r7_hash_order(ctx, rule="C01.R7"):
+    ctx.rule(rule, "no set-typed expression is iterated into ordered output (for / comprehension / list / tuple / zip / "
                        "enumerate / next(iter)) without sorted(): spawned workers have independent string-hash seeds")
     funcs = list(R7_FUNCS)
     if ctx.thorough:
@@ -640,9 +644,9 @@ def r7_hash_order(ctx):
                     # key order of a row dict: normalised by TransactionEncode (sorted keys) -- itself an R7 obligation
                     ok = _encode_sorts_keys(ctx)
                     detail = {"note": "dict key order only; TransactionEncode sorts row keys"}
-                ctx.ob("C01.R7", rel, qual, e, f"set iterated via {how} only under sorted()/an order-insensitive aggregate", ok,
+                ctx.ob(rule, rel, qual, e, f"set iterated via {how} only under sorted()/an order-insensitive aggregate", ok,
                        stmt=f"{how}:{unparse(e)}", detail=detail)
-    ctx.floor("C01.R7", "set-typed iteration sites", n, 1)
+    ctx.floor(rule, "set-typed iteration sites", n, 1)
 
 
 def r9_generators_travel_with_their_position(ctx, rule="C01.R9"):
@@ -712,6 +716,8 @@ def _cache_finally(tree):
 
 
 CONTROLS = [
+    ("the encoder remembers the columns of the first record of an evaluator", RES, M.insert_after("TransactionEncode.__init__", M.text_has("self._restored = restored"), "self._columns = {}"), "C01.R11"),
+    ("duplicate triples removed through a set", EXP, M.insert_before("Experiment._parse_init_args", lambda st: isinstance(st, ast.Return) and "triples" in ast.unparse(st), "triples = list(set(map(tuple, triples)))"), "C01.R7"),
     ("Noise pickled without its seed", "coba/environments/filters.py", M.replace_stmt("Noise.__init__", M.text_has("self._args ="), "self._args = (context, action, reward)"), "C01.R10"),
     ("cache marked complete in a finally", "coba/pipes/filters.py", lambda tree: _cache_finally(tree), "C01.R8"),
     ("vw arguments in hash order", "coba/learners/vowpal.py", M.replace_expr("make_args", "sorted(ignore_linear)", "ignore_linear"), "C01.R7"),
